@@ -198,7 +198,7 @@ void cloneCheck(NifFile& src, NiShape* srcShape, NifFile& dst, bool sameModel, c
 }
 
 struct Plan { int api; int synPer; };
-Plan plan() { return g_cfg.tier ? Plan{400, 6} : Plan{60, 1}; }
+Plan plan() { return g_cfg.tier ? Plan{1200, 12} : Plan{60, 1}; }
 
 std::vector<std::pair<std::string, std::string>> g_models;   // name, bytes (models with at least one shape)
 void init() {
